@@ -44,6 +44,26 @@ func genBigIntString(t *rapid.T, label string, maxDigits int) string {
 			v.Neg(v)
 		}
 		return v.String()
+	case 3:
+		// chosen BINARY words (the radix conversion divides by 10^19 word by word): 10^19 itself and its neighbours,
+		// 2^63, 2^64-1, 5*10^18, 0, 1 and uniform words, 1..12 of them
+		n := rapid.IntRange(1, 12).Draw(t, label+".bw")
+		if n*20 > maxDigits {
+			n = maxDigits/20 + 1
+		}
+		v := new(big.Int)
+		for i := 0; i < n; i++ {
+			w := rapid.SampledFrom([]uint64{h.Base, h.Base - 1, h.Base + 1, 1 << 63, ^uint64(0), h.Base / 2, 0, 1, h.Base / 10}).Draw(t, label+".bwe")
+			if rapid.IntRange(0, 2).Draw(t, label+".bwr") == 0 {
+				w = rapid.Uint64().Draw(t, label+".bwu")
+			}
+			v.Lsh(v, 64)
+			v.Or(v, new(big.Int).SetUint64(w))
+		}
+		if rapid.Bool().Draw(t, label+".neg") {
+			v.Neg(v)
+		}
+		return v.String()
 	case 2:
 		d := h.GenRoundDigits(t, label+".rd", rapid.IntRange(1, 40).Draw(t, label+".rp"))
 		d += zeros(rapid.IntRange(0, 30).Draw(t, label+".tz"))
